@@ -725,9 +725,53 @@ def _ranges(n, size):
     return [(i, min(n, i + size)) for i in range(0, n, size)]
 
 
+COMPILED = [("A", "I"), ("a|B", "I"), ("a", ""), ("A_1", "I"), ("a b", "X"), ("AB", "I"), ("a.*", "I"), ("B", "")]
+
+
+def compiled_patterns_leg(tier, report):
+    """predicates given as COMPILED regular expressions (with flags): a field is matched iff the pattern, flags included, fully
+    matches its id - as the bare predicate, as P[pattern] and as one alternative of P[pattern, 'b']"""
+    import re
+    stacks = stack_space(tier)
+    med = mediator()
+    for text, flags in COMPILED:
+        flag_value = 0
+        for f in flags:
+            flag_value |= getattr(re, f)
+        rx = re.compile(text, flag_value)
+
+        def means(ref_stack, extra=None, rx=rx):
+            loc = ref_stack[-1]
+            return loc[0] in ("I", "O") and (rx.fullmatch(loc[2]) is not None or loc[2] == extra)
+        for form, pred, extra in (("bare", rx, None), ("P[rx]", P[rx], None), ("P[rx,'b']", P[rx, "b"], "b"), ("~P[rx]", ~P[rx], None)):
+            case = {"leg": "compiled", "pattern": text, "flags": flags, "form": form}
+            try:
+                checker = create_loc_stack_checker(pred)
+            except Exception as e:  # noqa: BLE001
+                report.violation({"check": "C10.compiled", "problem": "construction", "form": form},
+                                 f"re.compile({text!r}, {flags or 0}) as {form}: {type(e).__name__}: {e}"[:250], case)
+                continue
+            n_true = 0
+            bad = None
+            for ref_stack, stack in stacks:
+                report.evaluations += 1
+                want = means(ref_stack, extra) != form.startswith("~")
+                got = checker.check_loc_stack(med, stack)
+                n_true += bool(want)
+                if got != want and bad is None:
+                    bad = (ref_stack, got, want)
+            report.case(("compiled", text, flags, form), nontrivial=0 < n_true < len(stacks), sample=case)
+            report.outcome("compiled:" + ("differs" if bad else "agrees"))
+            if bad:
+                report.violation({"check": "C10.compiled", "problem": "meaning", "form": form},
+                                 f"re.compile({text!r}, flags={flags or 0}) as {form} on {show_stack(bad[0])}: checker gives {bad[1]!r}, a full "
+                                 f"match of the compiled pattern (flags included) gives {bad[2]!r}", {**case, "stack": bad[0]})
+
+
 def run(tier):
     ref_pred.self_check()
     report = Report()
+    compiled_patterns_leg(tier, report)
     exprs = expression_space()
     stacks = stack_space(tier)
     mediator()
